@@ -203,6 +203,7 @@ RES_APIS = [
     ("recv_keep", "recv", "K"), ("recv_keep_with_info", "recv", "K"), ("recv(K)", "recv", "K"),
     ("create_measure", "create", "M"), ("create(M)", "create", "M"), ("recv_measure", "recv", "M"), ("recv(M)", "recv", "M"),
     ("create_rsp", "create", "M"), ("recv_rsp", "recv", "K"), ("recv_rsp_with_info", "recv", "K"),
+    ("create_keep_seq", "create", "K"), ("recv_keep_seq", "recv", "K"), ("create_keep_seq_info", "create", "K"),
 ]
 
 
@@ -247,7 +248,11 @@ def _run_res(item):
             return dict(create_id=100 + 3 * k + salt, sequence_number=200 + 5 * k + salt, goodness=300 + 7 * k + salt, goodness_time=400 + 11 * k + salt,
                         measurement_basis=(k + salt) % 5, logical_qubit_id=physs[k])
 
-        conn.link = rig.AutoLink(ex, conn.stack, bell=bells, outcomes=outs, fields=fields, stepwise=False)
+        seqmode = any("_seq" in r["api"] for r in c["reqs"])
+        if seqmode:
+            physs = [physs[0]] * total            # one pair at a time on the same qubit
+            ex.meas_script = [0, 1] * 8
+        conn.link = rig.AutoLink(ex, conn.stack, bell=bells, outcomes=outs, fields=fields, stepwise=seqmode)
         handles = []
         ek = dict(expect_phi_plus=c["expect"])
         for r, sock in zip(c["reqs"], socks):
@@ -278,6 +283,18 @@ def _run_res(item):
                 h = ("m", sock.recv(n, tp=EPRType.M), None)
             elif api == "create_rsp":
                 h = ("m", sock.create_rsp(n), None)
+            elif api in ("create_keep_seq", "recv_keep_seq", "create_keep_seq_info"):
+                # pairs handled one after the other by a measuring post routine: the handles outlive their qubits,
+                # their entanglement information must still be that of their own pair
+                def post(conn_, q, pair):
+                    q.measure()
+                if api == "create_keep_seq":
+                    h = ("e", sock.create_keep(n, post_routine=post, sequential=True), None)
+                elif api == "recv_keep_seq":
+                    h = ("e", sock.recv_keep(n, post_routine=post, sequential=True, **ek), None)
+                else:
+                    qs, infos = sock.create_keep_with_info(n, post_routine=post, sequential=True)
+                    h = ("e", qs, infos)
             elif api == "recv_rsp":
                 h = ("q", sock.recv_rsp(n, **ek), None)
             elif api == "recv_rsp_with_info":
@@ -304,8 +321,9 @@ def _run_res(item):
             for pi, hnd in enumerate(hs):
                 def ob(name, v):
                     row["obs"].append(dict(req=ri, pair=pi, h=name, v=_val(v) if v is not None else -1))
-                if what == "q":
-                    ob("qubit.physical", um[hnd.qubit_id] if hnd.qubit_id < len(um) else None)
+                if what in ("q", "e"):
+                    if what == "q":
+                        ob("qubit.physical", um[hnd.qubit_id] if hnd.qubit_id < len(um) else None)
                     info = hnd.entanglement_info
                     for f in info._fields:
                         ob("ent." + f, info.__getattribute__(f).value)
